@@ -12,6 +12,9 @@ package dag
 //@   modifies openpgp.sigChecks, openpgp.lastKeyring, openpgp.lastSigned, openpgp.lastSignature, openpgp.lastSigOK, identity.entityKey
 //@   opt trusted_frame
 //@   ensures [pack-or-error] result1 == nil ==> result != nil
+// C07/C04: a pack is only read when its tree announces the format version this build writes (another version, none,
+// or an unreadable one is an error - never a best-effort decoding)
+//@   check [only-the-expected-format-is-read] result1 == nil ==> version == def.FormatVersion && version != 0
 // C08: a pack whose author has keys in force at the pack's edit time (on the edit clock of the entity's
 // namespace) is only returned after a signature check, over the commit's own signed data and
 // signature, against a keyring made of exactly those keys, that succeeded.
@@ -506,6 +509,16 @@ package dag
 //@   ensures [a-successful-pull-has-merged] result == nil ==> mergeRuns == old(mergeRuns) + 1
 //@   loop 1
 //@     invariant mergeRuns == old(mergeRuns) + 1
-// asking an operation for its id may derive and remember it; nothing else changes
+// the id of an operation is a fixed attribute of it (derived on first use and remembered: IdOperation above)
 //@ func Operation.Id
-//@   modifies all(OpBase.id)
+//@   purefn
+
+// set-metadata (C10: "metadata attached later to an operation never overrides an existing key"): the new values go,
+// through the never-override setter, to the operation whose id is the target - and to no other.
+//@ func Operation.setExtraMetadataImmutable
+//@   modifies * except all(OpBase.id), allelems(Operation), all(SetMetadataOperation.Target)
+//@ func Snapshot.AllOperations
+//@   modifies nothing
+//@ func (*SetMetadataOperation).Apply
+//@   props C10
+//@   assert at `target.setExtraMetadataImmutable(key, value)` [only-the-target-gets-the-metadata] target.Id() == op.Target
